@@ -230,7 +230,7 @@ def c17(tier, repo=None, only_cases=None):
         mc("n2-all", t_consts())
         mc("n2-liveness", t_consts(MaxCalls=2, MaxChunks=1, Graphs=[True]), props=["Terminates"], spec=True)
         mc("n3-faults", t_consts(MaxCalls=3, MaxTools=3, MaxChunks=1, Behs=["ok", "fail", "panic"], Kinds=["inv", "str"], Handlers=["none", "ok"], MaxFaulty=2))
-        for bug in ("reverse", "sharedidx", "noinlinewait", "dropempty"):
+        for bug in ("reverse", "sharedidx", "noinlinewait", "dropempty", "donebeforeerr"):
             mc("n2-bug-" + bug, t_consts(Bug=bug), expect_violation="RuleOK")
         two = dict(Consumers=2, Modes=["stream"], Graphs=[True], Behs=["ok", "empty", "failmid"], Handlers=["none", "ok"])
         mc("n2-two-consumers", t_consts(**two))
